@@ -329,6 +329,10 @@ type PostingsIterator struct {
 
 	includeFreqNorm bool
 	includeLocs     bool
+
+	// first error returned by Next/Advance; the chunk readers are in an
+	// undefined state after a failed read, so the iterator keeps returning it
+	err error
 }
 
 var emptyPostingsIterator = &PostingsIterator{}
@@ -462,6 +466,17 @@ const locSliceGrowth = 2
 
 // Next returns the next posting on the postings list, or nil at the end
 func (i *PostingsIterator) nextAtOrAfter(atOrAfter uint64) (segment.Posting, error) {
+	if i.err != nil {
+		return nil, i.err
+	}
+	rv, err := i.readNextAtOrAfter(atOrAfter)
+	if err != nil {
+		i.err = err
+	}
+	return rv, err
+}
+
+func (i *PostingsIterator) readNextAtOrAfter(atOrAfter uint64) (segment.Posting, error) {
 	docNum, exists, err := i.nextDocNumAtOrAfter(atOrAfter)
 	if err != nil || !exists {
 		return nil, err
